@@ -252,6 +252,11 @@ impl Address {
     /// # Safety
     /// This could throw a segment fault if the address is invalid
     pub unsafe fn atomic_load<T: Atomic>(self, order: Ordering) -> T::Type {
+        #[cfg(mmtk_verif)]
+        crate::util::verif::rt::yield_point_at(
+            crate::util::verif::rt::site::RACE_ADDR_LOAD,
+            self.0,
+        );
         let loc = &*(self.0 as *const T);
         loc.load(order)
     }
@@ -260,6 +265,11 @@ impl Address {
     /// # Safety
     /// This could throw a segment fault if the address is invalid
     pub unsafe fn atomic_store<T: Atomic>(self, val: T::Type, order: Ordering) {
+        #[cfg(mmtk_verif)]
+        crate::util::verif::rt::yield_point_at(
+            crate::util::verif::rt::site::RACE_ADDR_STORE,
+            self.0,
+        );
         let loc = &*(self.0 as *const T);
         loc.store(val, order)
     }
@@ -274,6 +284,8 @@ impl Address {
         success: Ordering,
         failure: Ordering,
     ) -> Result<T::Type, T::Type> {
+        #[cfg(mmtk_verif)]
+        crate::util::verif::rt::yield_point_at(crate::util::verif::rt::site::RACE_ADDR_CAS, self.0);
         let loc = &*(self.0 as *const T);
         loc.compare_exchange(old, new, success, failure)
     }
